@@ -1470,6 +1470,12 @@ fn run_system(mode: &str, sys: &dyn Sys, a: &Args, tally: &mut Tally) {
     match r {
         Err(why) => {
             // the draw structure could not be resolved soundly: no verdict
+            if why.contains("time budget of the system exhausted") {
+                // wall-clock never decides an outcome: a system that ran out of time is counted, not judged
+                stat("kern_timed_out_systems", 1);
+                eprintln!("kern timed out (no verdict): {} {}", mode, sys.describe());
+                return;
+            }
             tally.abstained += 1;
             tally.cases += 1;
             tally.abst_msgs.push(format!("{} {}: {}", mode, sys.describe(), why));
